@@ -45,7 +45,12 @@ impl ByteCompiler<'_> {
             };
             self.patch_jump(label);
 
+            // A `const` declared in one clause is in scope in the following clauses, which can
+            // run without the declaration having been evaluated, so reads must go through the
+            // environment (where the binding is still uninitialized) instead of a cached register.
+            let in_switch_clause = std::mem::replace(&mut self.in_switch_clause, true);
             self.compile_statement_list(case.body(), use_expr, true);
+            self.in_switch_clause = in_switch_clause;
         }
 
         if !default_label_set {
